@@ -1,0 +1,25 @@
+//go:build verif
+
+package openfile
+
+// Contracts for the deductive verifier in /verif (govc). Comments only; compiled only with the build tag "verif".
+// Flag arithmetic is verified with 64-bit bit-vectors (bv mode).
+
+//@ func [C16,C15] OpenFile(opts) (result)
+//@   ensures [C16] opts.FailIfFileExists ==> result == fnref("OpenFile$1")
+//@   ensures [C15] !opts.FailIfFileExists && opts.FailIfFileDoesntExist ==> result == fnref("OpenFile$2")
+
+// FailIfFileExists: the file is opened with O_EXCL added to whatever flags the caller passes (bbolt passes O_CREATE)
+//@ func [C16] OpenFile$1(pathname, flags, mode) (f, err)
+//@   bv
+//@   ensures [C16] openedWith(f, err, pathname, flags | os.O_EXCL, mode)
+
+// FailIfFileDoesntExist: O_CREATE is removed from the flags
+//@ func [C15] OpenFile$2(pathname, flags, mode) (f, err)
+//@   bv
+//@   ensures [C15] openedWith(f, err, pathname, flags &^ os.O_CREATE, mode)
+
+// The meaning of the two verified contracts above under POSIX open(2) (assumed): O_CREAT|O_EXCL fails on an existing
+// path without touching it; without O_CREAT a missing path is never created.
+//@ axiom excl_opener: exclOpener(fnref("OpenFile$1"))
+//@ axiom nocreate_opener: noCreateOpener(fnref("OpenFile$2"))
